@@ -215,7 +215,9 @@ def freeze(obj):
 class Kept(object):
     """Evaluator results kept exactly as returned (no copy) next to a private copy taken right after the call.
     Everything is judged twice: the copies immediately, the kept objects after ALL other calls were made
-    (an evaluator that hands out an internal buffer passes the first and fails the second)."""
+    (an evaluator that hands out an internal buffer passes the first and fails the second).  Only VALUES are judged by
+    the callers: an argument that was written to, or a kept array rewritten with values that are still right, is a side
+    effect outside the properties concerned and is tagged."""
 
     def __init__(self):
         self.rows = []          # dict(label, name, raw, snap)
